@@ -33,6 +33,7 @@ func c02(c *Ctx) {
 	c02R7(c, "R7")
 	sState(c, "R8/S-STATE")
 	coreCommitBundle(c, "R9", "S-MATCH")
+	c11R4(c, "R10/C11.R4")
 }
 
 func c02R1(c *Ctx, rule string) {
